@@ -1265,6 +1265,16 @@ def case_seq(ctx, c):
                         bad = (list(idx), numpy.ravel(M[idx])[:4].tolist(), numpy.ravel(e)[:4].tolist())
                         break
             stale = bad is not None and prev_mat is not None and prev_mat.shape == M.shape and numpy.array_equal(prev_mat, M, equal_nan=True)
+            if bad is not None and bad[0] != "shape":
+                # attribution: does a request that nothing preceded (the class's from_algmod with the same arguments) give the
+                # same wrong entry?  Then the defect is in the computation (C12.genetic / C12.genic), not in the sequence.
+                ref, rexc = build(ctx, scheme, kind, "from_algmod", st["mod"], st["pg"], st["nmating"], st["nprogeny"], st["nself"], st["H"], st["mem"])
+                if rexc is None and numpy.asarray(ref.mat).shape == M.shape and close(numpy.asarray(ref.mat)[tuple(bad[0])], M[tuple(bad[0])], tol):
+                    ctx.check("C12.genetic" if genetic else "C12.genic", False, site_of(scheme, kind),
+                              "entry == exact gamete enumeration" if genetic else "entry == exact gamete enumeration with all loci unlinked",
+                              exp[tuple(bad[0])][1] + ocls, what="%s%s: reported %s, enumeration %s" % (type(obj).__name__, bad[0], bad[1], bad[2]),
+                              witness=dict(summary, index=bad[0]), coords=coords)
+                    return
             ctx.sumnote("seq: later requests judged (%s)" % hname)
             # does the exact answer to this request differ from the exact answer to the previous one (on the judged tuples)?
             differs = any(i in prev_exp and not close(e, prev_exp[i][0], 10.0 * numpy.maximum(tol, prev_tol)) for i, (e, tc) in exp.items())
